@@ -293,7 +293,9 @@ def run(ctx):
         ctx.check(T.ige(nverts, 3) in e.conds(), "GUARD", f"{tv.qualname} / GUARD / circle fit only with >= 3 points", ctx.where(tv, e.node),
                   "calculate_circle_center is dominated by len(self.vertices) >= 3",
                   "the circle fit is reached for two-point interfaces, where the fitted centre is the chord midpoint and J*(v-c) is perpendicular to the interface")
-        args_ok = e.args and e.args[0] == T.attr(SELF, "vertices") and dict(e.kw).get("method") == fitp
+        # canonical argument list: method is the second parameter of calculate_circle_center, positional or by keyword
+        method_arg = e.args[1] if len(e.args) > 1 else dict(e.kw).get("method")
+        args_ok = e.args and e.args[0] == T.attr(SELF, "vertices") and method_arg == fitp
         ctx.check(args_ok, "FORM", f"{tv.qualname} / FORM / centre fitted over all points with the configured method", ctx.where(tv, e.node),
                   "calculate_circle_center(self.vertices, method=fit_method)",
                   f"circle centre computed as calculate_circle_center({', '.join(T.show(a) for a in e.args)}, {dict((k, T.show(v)) for k, v in e.kw)})")
